@@ -87,7 +87,7 @@ def minimise(case: dict, target: dict, run, budget: int = 300, log=None, step_sl
     # 2. faults
     plan = best.get("plan")
     if plan:
-        for key in ("faults", "fp", "evict_mid"):
+        for key in ("faults", "fp", "evict_mid", "switch_at"):
             i = 0
             while i < len(best["plan"].get(key, [])) and used < budget:
                 cand = copy.deepcopy(best)
